@@ -239,11 +239,11 @@ class RoutingPolicyGenerator(PartialGenerator, ABC):
     ) -> Iterator[Sequence[str]]:
         if action.value.replaced is not None:
             raise NotImplementedError("Extcommunity_soo replace is not supported for huawei")
+        if action.value.removed:
+            raise NotImplementedError("Extcommunity_soo remove is not supported for huawei")
         if action.value.added:
             members = [f"rt {m}" for name in action.value.added for m in communities[name].members]
             yield "apply", "extcommunity", *members, "additive"
-        if action.value.removed:
-            raise NotImplementedError("Extcommunity_soo remove is not supported for huawei")
 
     def _huawei_render_ext_community_members(
             self, comm_type: CommunityType, members: list[str]
@@ -265,6 +265,10 @@ class RoutingPolicyGenerator(PartialGenerator, ABC):
             device: Any,
             action: SingleAction[CommunityActionValue],
     ):
+        # validate everything before the first row is yielded
+        if action.value.removed and action.value.replaced is None:
+            raise NotImplementedError("Cannot remove extcommunity on huawei")
+        rows: list[Sequence[str]] = []
         if action.value.replaced is not None:
             if action.value.added or action.value.removed:
                 raise NotImplementedError(
@@ -282,20 +286,23 @@ class RoutingPolicyGenerator(PartialGenerator, ABC):
                         "Cannot set extcommunity soo on huawei",
                     )
                 rendered_memebers = self._huawei_render_ext_community_members(community_type, replaced_members)
-                yield "apply", "extcommunity", *rendered_memebers
+                rows.append(("apply", "extcommunity", *rendered_memebers))
         if action.value.added:
             members = group_community_members(communities, action.value.added)
             for community_type, added_members in members.items():
                 rendered_memebers = self._huawei_render_ext_community_members(community_type, added_members)
-                yield "apply", "extcommunity", *rendered_memebers, "additive"
-        if action.value.removed:
-            raise NotImplementedError("Cannot remove extcommunity on huawei")
+                rows.append(("apply", "extcommunity", *rendered_memebers, "additive"))
+        yield from rows
 
     def _huawei_then_as_path(
             self,
             device: Any,
             action: SingleAction[AsPathActionValue],
     ) -> Iterator[Sequence[str]]:
+        if action.value.expand:
+            raise RuntimeError("as_path.expand is not supported for huawei")
+        if action.value.expand_last_as:
+            raise RuntimeError("as_path.expand_last_as is not supported for huawei")
         if action.value.set is not None:
             if action.value.prepend:
                 raise NotImplementedError(
@@ -307,13 +314,9 @@ class RoutingPolicyGenerator(PartialGenerator, ABC):
                 yield "apply", "as-path", "none overwrite"
         if action.value.prepend:
             yield "apply as-path", *action.value.prepend, "additive"
-        if action.value.expand:
-            raise RuntimeError("as_path.expand is not supported for huawei")
         if action.value.delete:
             for path_item in action.value.delete:
                 yield "apply as-path", path_item, "delete"
-        if action.value.expand_last_as:
-            raise RuntimeError("as_path.expand_last_as is not supported for huawei")
 
     def _huawei_then(
             self,
@@ -665,6 +668,10 @@ class RoutingPolicyGenerator(PartialGenerator, ABC):
             device: Any,
             action: SingleAction[AsPathActionValue],
     ) -> Iterator[Sequence[str]]:
+        if action.value.expand:
+            raise RuntimeError("as_path.expand is not supported for arista")
+        if action.value.delete:
+            raise RuntimeError("as_path.delete is not supported for arista")
         if action.value.set is not None:
             if action.value.prepend:
                 raise NotImplementedError(
@@ -685,10 +692,6 @@ class RoutingPolicyGenerator(PartialGenerator, ABC):
                 yield "set", "as-path prepend", path_item, *last_as_suffix
         else:
             yield "set", "as-path prepend", *last_as_suffix
-        if action.value.expand:
-            raise RuntimeError("as_path.expand is not supported for arista")
-        if action.value.delete:
-            raise RuntimeError("as_path.delete is not supported for arista")
 
     def _arista_then(
             self,
